@@ -240,6 +240,9 @@ class TailAnalysis:
         a0 = canon_masks(W.T.term(call["args"][0]))
         if nm == "fetch_and":
             ok = a0 == ("un", "!", mask)
+        elif nm in ("fetch_or", "fetch_xor"):
+            # sets / flips only the live low bits
+            ok = a0 == mask
         elif nm == "store":
             old_load = None
             ok = False
